@@ -99,8 +99,9 @@ pub enum CallResult {
 /// Where a buffer handed to the client came from.
 #[derive(Clone, Debug, PartialEq, Eq, PartialOrd, Ord, Hash)]
 pub enum Origin {
-    /// n-th packet sent towards the client, copy c
-    S2c(usize, usize),
+    /// packet sent towards the client, named after what it answers (`t<k>.<j>.a<a>.r<i>`: i-th reply to the
+    /// a-th arrival of the j-th transmission of transaction k), copy c
+    S2c(String, usize),
     /// k-th injection action
     Inj(usize),
     /// epilogue probe
